@@ -53,6 +53,21 @@ func nearMisses(s []rune, rng *rand.Rand) [][]rune {
 
 func escapeLaws(s string, rng *rand.Rand, optsList []int, st func(string)) string {
 	e := regexp2.Escape(s)
+	// the inverse is a function of its argument alone: a rejected text right before must leave no trace,
+	// and a text with escapes of its own must read the same before and after
+	if rng.Intn(3) == 0 {
+		bad := []string{e + "\\", "C:\\", e + "\\x4", "q\\u12" + e, e + "\\c", "\\p{" + e, s + "\\k<", "\\x{110000}" + e}[rng.Intn(8)]
+		other := []string{"\\x41\\n" + e, "\\u0041\\t\\.", "a\\+b"}[rng.Intn(3)]
+		before, errBefore := regexp2.Unescape(other)
+		st("after-rejected-text")
+		if _, err := regexp2.Unescape(bad); err == nil {
+			st("hostile-text-accepted")
+		}
+		after, errAfter := regexp2.Unescape(other)
+		if before != after || (errBefore == nil) != (errAfter == nil) {
+			return fmt.Sprintf("Unescape(%q) = %q, %v before and %q, %v after Unescape(%q)", other, before, errBefore, after, errAfter, bad)
+		}
+	}
 	st("roundtrip")
 	u, err := regexp2.Unescape(e)
 	if err != nil || u != s {
@@ -191,7 +206,7 @@ func runC19(r *core.Run) int {
 		r.Extras["exhaustive_single_code_points"] = true
 	}
 	return r.Finish(
-		"strings of 1-6 runes drawn from metacharacters, whitespace, controls, the boundaries of Escape's encoding ranges (0x100, 0x1000, 0x10000) +-1, unassigned and non-printable runes below and above U+FFFF, and hex digits (so a wrong escape width changes the meaning); per string: Unescape(Escape(s)) == s, \\A(?:Escape(s))\\z compiles under option sets that keep literal meaning (two of ten fixed sets plus a random subset of IgnorePatternWhitespace, Multiline, Singleline, ExplicitCapture, RightToLeft, RE2, Unicode), matches s and rejects up to 60 near-misses (rune dropped, doubled, replaced by a neighbour / other case / U+FFFD, text prepended or appended); thorough adds every code point alone and followed by a hex digit; non-trivial = distinct string that Escape actually changes",
+		"strings of 1-6 runes drawn from metacharacters, whitespace, controls, the boundaries of Escape's encoding ranges (0x100, 0x1000, 0x10000) +-1, unassigned and non-printable runes below and above U+FFFF, and hex digits (so a wrong escape width changes the meaning); per string: Unescape(Escape(s)) == s, for a third of them right after a text that Unescape rejects (trailing backslash, cut-off \\x / \\u / \\c / \\p{ escapes) with a well-formed escaped text read before and after the rejected one (same answer both times), \\A(?:Escape(s))\\z compiles under option sets that keep literal meaning (two of ten fixed sets plus a random subset of IgnorePatternWhitespace, Multiline, Singleline, ExplicitCapture, RightToLeft, RE2, Unicode), matches s and rejects up to 60 near-misses (rune dropped, doubled, replaced by a neighbour / other case / U+FFFD, text prepended or appended); thorough adds every code point alone and followed by a hex digit; non-trivial = distinct string that Escape actually changes",
 		[]string{"valid UTF-8 strings only, as the property states"},
 		map[string]int64{"evaluations": 10000, "distinct_nontrivial": 5000, "law_rejects-near-miss": 100000})
 }
